@@ -3,8 +3,10 @@ package main
 import (
 	"bytes"
 	"fmt"
+	"os"
 	"runtime"
 	"strconv"
+	"strings"
 	"sync"
 	"time"
 
@@ -30,6 +32,7 @@ type thr struct {
 	site    string
 	mu      *sync.Mutex
 	inParse bool // between "instantiate.marked" and "instantiate.unlocked": yield points of nested loads pass through
+	quiet   bool // rendering an observation: yield points pass through (lazy.go)
 	inInst  bool // between "instantiate.checked" and "instantiate.unlocked"
 	parses  int
 	done    bool
@@ -37,6 +40,7 @@ type thr struct {
 	overlapped map[int]bool // op index -> overlapped an instantiation of the same (loader, name) by another goroutine
 	steps      int
 	doneAt     []int
+	windowed   map[int]bool // op index -> the operation parked in the window of a lazily filled cache (lazy.go)
 }
 
 // job is one operation of a thread
@@ -78,7 +82,7 @@ func hookHandler(site string, mu *sync.Mutex) {
 	if t == nil {
 		return // not a goroutine of the program under schedule (set-up, sequential oracle)
 	}
-	if t.inParse && site != "instantiate.unlocked" {
+	if t.quiet || (t.inParse && site != "instantiate.unlocked") {
 		return
 	}
 	switch site {
@@ -88,7 +92,13 @@ func hookHandler(site string, mu *sync.Mutex) {
 		t.inParse = false
 		t.inInst = false
 	}
+	if strings.HasSuffix(site, ".window") {
+		t.windowed[t.opIdx] = true // this operation found the cache empty and builds the object itself
+	}
 	t.site, t.mu = site, mu
+	if debugSites {
+		fmt.Fprintf(os.Stderr, "  [goroutine %d parks at %s]\n", t.id, site)
+	}
 	reports <- report{t, 0}
 	<-t.resume
 	t.site, t.mu = "", nil
@@ -96,6 +106,8 @@ func hookHandler(site string, mu *sync.Mutex) {
 		t.inParse = true
 	}
 }
+
+var debugSites = os.Getenv("C13_DEBUG_SITES") != ""
 
 func installHook() { verifhook.SetHandler(hookHandler) }
 
@@ -111,6 +123,7 @@ type runResult struct {
 	World    *world
 	Counts   map[string]int
 	DoneAt   [][]int // DoneAt[t][i]: the schedule step at which operation i of thread t returned
+	Windowed []map[int]bool
 }
 
 // policy picks the thread to run at step i among the enabled ones (never empty); it may also pick a thread that is
@@ -173,7 +186,7 @@ func runJobs(jobs [][]job, pick policy, before func(t *thr, ths []*thr)) *runRes
 	rr := &runResult{}
 	ths := make([]*thr, len(jobs))
 	for i, js := range jobs {
-		t := &thr{id: i, resume: make(chan struct{}), jobs: js, overlapped: map[int]bool{}}
+		t := &thr{id: i, resume: make(chan struct{}), jobs: js, overlapped: map[int]bool{}, windowed: map[int]bool{}}
 		ths[i] = t
 		if len(js) == 0 {
 			t.done = true
@@ -272,6 +285,7 @@ func runJobs(jobs [][]job, pick policy, before func(t *thr, ths []*thr)) *runRes
 		rr.Parses = append(rr.Parses, t.parses)
 		rr.Overlap = append(rr.Overlap, t.overlapped)
 		rr.DoneAt = append(rr.DoneAt, t.doneAt)
+		rr.Windowed = append(rr.Windowed, t.windowed)
 	}
 	return rr
 }
